@@ -53,15 +53,27 @@ GROUP = {
 
 
 def _failure_class(case, j):
-    """canonical class of a failing behaviour (key of a finding): exception, http-error, empty-body[/falsy-id],
+    """canonical class of a failing behaviour (key of a finding): exception, http-error, empty-body/<label>[/falsy-id],
     malformed-body, no-message-in-body"""
     r = case["reqs"][j]
     e = G.expect(r["b"])
     cls = e["cls"]
     cls = GROUP.get(cls, cls)
-    if cls == "empty-body" and r["id"] is not None and not G.idval(r["id"]):
-        cls += "/falsy-id"
+    if cls == "empty-body":
+        cls += "/" + ("unlabelled" if r["b"]["ct"] in ("other", "absent") else r["b"]["ct"])
+        if r["b"]["ct"] in ("other", "absent") and r["id"] is not None and not G.idval(r["id"]):
+            cls += "/falsy-id"
     return cls
+
+
+def _sse_feature(body):
+    """which conformant-encoding feature an SSE body uses (class of a lost-message finding)"""
+    evs = [e for e in body["events"] if e.get("msg") is not None]
+    if any(e.get("name") is None for e in evs):
+        return "sse/no-event-field"
+    if any(not c["sp"] for e in evs for c in e["dc"]) or any(not e["nc"]["sp"] for e in evs):
+        return "sse/no-space-after-colon"
+    return "sse/other"
 
 
 def oracle(case, obs):
@@ -95,7 +107,7 @@ def oracle(case, obs):
             if [canon(m) for m in got] != [canon(m) for m in srv[j]]:
                 form = reqs[j]["b"]["body"]["form"]
                 what = "lost-message" if len(got) < len(srv[j]) else "reordered-or-duplicated"
-                return (f"{what}/{'sse' if form == 'sse' else 'json-' + ('batch' if form == 'batch' else 'single')}",
+                return (f"{what}/{_sse_feature(reqs[j]['b']['body']) if form == 'sse' else 'json-' + ('batch' if form == 'batch' else 'single')}",
                         f"request {j}: {len(srv[j]) - len(got)} of the server's messages not delivered" if what == "lost-message" else f"request {j}: delivered messages differ in order or number", {"request": j, "delivered": srv[j]})
         else:
             want = [canon(m) for m in srv[j]]
@@ -164,7 +176,7 @@ class _Base(Suite):
     def compare(self, case, o, m):
         if "driver_error" in m:
             return "driver error"
-        return None if H.same(H.comparable_impl(o), m) else "transcript or headers differ"
+        return None if H.same(case, H.comparable_impl(o), m) else "transcript or headers differ"
 
     def oracle(self, case, o):
         return oracle(case, o)
